@@ -146,7 +146,8 @@ def extract(unit, enums, sigs):
         if len(ms) != 1 or len(me) != 1 or me[0].end() <= ms[0].start():
             raise ExtractError('region anchors of %s matched %d / %d times' % (unit.get('cname'), len(ms), len(me)))
         r0 = b_open + ms[0].start(); r1 = b_open + me[0].end()
-        fake = '%s %s(%s) {%s}' % (region.get('ret', 'void'), 'REGION', ', '.join('%s %s' % p for p in region['params']), src[r0:r1])
+        fake = '%s %s(%s) {%s%s}' % (region.get('ret', 'void'), 'REGION', ', '.join('%s %s' % p for p in region['params']), src[r0:r1],
+                                   (' return %s;' % region['ret_expr']) if region.get('ret_expr') else '')
         off = len(src)
         src = src + '\n' + fake
         s0 = off + 1; p_open = src.index('(', s0); p_close = src.index(')', p_open)
@@ -275,6 +276,7 @@ def extract(unit, enums, sigs):
     # member access
     if cls:
         funcs, datas = class_members(unit['cls_file'], unit.get('cls_decl', cls))
+        datas = set(datas) | set(unit.get('inherited_members', ()))
         toks = r_members(ctx, toks, cls, funcs, datas)
     toks = r_local_refs(ctx, toks)
     toks = r_nstring_cmp(ctx, toks)
